@@ -117,7 +117,8 @@ def main():
         rc, out = sh("./check %s" % c, cwd=VERIF, env={"VERIF_REPO": WT, "CARGO_TARGET_DIR": os.path.join(VERIF, ".cache", "target")})
         viol = [l for l in out.splitlines() if l.startswith("VIOLATION")]
         res["checks"][c] = {"exit": rc, "violation_line": viol[0] if viol else None,
-                            "detail": [l for l in out.splitlines() if l.startswith("  ")][:6]}
+                            "detail": [l for l in out.splitlines() if l.startswith("  ")][:8],
+                            "tail": out[-2500:]}
     reset()
     print(json.dumps(res, indent=1))
     if keep:
